@@ -19,24 +19,24 @@ import (
 func init() { streams["addr"] = runAddr }
 
 type addrObs struct {
-	In     string `json:"in"`
-	Api    string `json:"api"`
-	Ok     bool   `json:"ok"`
-	Kind   string `json:"kind,omitempty"`
-	Str    string `json:"str,omitempty"`
-	Type   string `json:"type,omitempty"`
-	Scheme string `json:"scheme,omitempty"`
-	Host   string `json:"host,omitempty"`
-	Path   string `json:"path,omitempty"`
+	In      string `json:"in"`
+	Api     string `json:"api"`
+	Ok      bool   `json:"ok"`
+	Kind    string `json:"kind,omitempty"`
+	Str     string `json:"str,omitempty"`
+	Type    string `json:"type,omitempty"`
+	Scheme  string `json:"scheme,omitempty"`
+	Host    string `json:"host,omitempty"`
+	Path    string `json:"path,omitempty"`
 	RawPath string `json:"raw_path,omitempty"`
-	Query  string `json:"query,omitempty"`
-	Frag   string `json:"frag,omitempty"`
-	User   bool   `json:"user,omitempty"`
-	Sub    string `json:"sub,omitempty"`
-	Pkg    string `json:"pkg,omitempty"`
-	Ver    string `json:"ver,omitempty"`
-	Err    string `json:"err,omitempty"`
-	Panic  string `json:"panic,omitempty"`
+	Query   string `json:"query,omitempty"`
+	Frag    string `json:"frag,omitempty"`
+	User    bool   `json:"user,omitempty"`
+	Sub     string `json:"sub,omitempty"`
+	Pkg     string `json:"pkg,omitempty"`
+	Ver     string `json:"ver,omitempty"`
+	Err     string `json:"err,omitempty"`
+	Panic   string `json:"panic,omitempty"`
 	// the constructor route
 	MakeTyp string `json:"make_typ,omitempty"`
 	MakeRaw string `json:"make_raw,omitempty"`
